@@ -346,7 +346,9 @@ class FakeSnowflakeCursor:
                     cmd == "DROP SCHEMA"
                     and ident == self._conn.schema
                     and (schema_ref := transformed.find(exp.Table))
-                    and (schema_ref.catalog or self._conn.database) == self._conn.database
+                    # sqlglot parses "DROP SCHEMA IF EXISTS db.schema" like a table reference (this=schema, db=db)
+                    and ((schema_ref.db if schema_ref.args.get("this") else schema_ref.catalog) or self._conn.database)
+                    == self._conn.database
                 ):
                     # the session no longer has a current schema
                     self._conn.schema = None
